@@ -3,6 +3,7 @@ import WebpVerif.Spec.LoopFilter
 import WebpVerif.Gen.Libwebp
 import WebpVerif.Lemmas.Vp8Ctx
 import WebpVerif.Lemmas.Vp8Mode
+import WebpVerif.Lemmas.Vp8Border
 
 /-!
 # C02 — VP8 key-frame reconstruction is bit-exact
@@ -292,5 +293,23 @@ theorem subblock_mode_contexts_are_rfc (f : Vp8Mode.Frame) :
 -- non-vacuity: a 16x16 macroblock (implied mode 2) to the left of a B_PRED macroblock
 def exModes : Vp8Mode.Frame := ⟨2, 1, 0, fun x _ => x == 1, fun _ _ => 2, fun bx by' => (bx + by') % 10⟩
 example : ((Vp8Mode.run exModes).map fun c => (c.top, c.left)).take 6 = [(0, 2), (0, 4), (0, 5), (0, 6), (4, 2), (5, 5)] := by decide
+
+/-- **The luma prediction borders are the RFC rule.**  `Vp8Border.run` models `top_border`,
+    `left_border` and `create_border_luma`: the buffers are overwritten with the bottom row and
+    the right column of every reconstructed macroblock, `left_border[0]` keeps the last pixel above
+    the macroblock just done (the next macroblock's corner, saved before the row above is
+    overwritten), `left_border` is reset to 129 after every row.  For EVERY frame size and every
+    reconstruction, the 37 border pixels each macroblock is predicted from - corner, sixteen above,
+    four above-right, sixteen left - are the neighbouring (unfiltered) pixels of the reconstructed
+    frame as RFC 6386 section 12 defines them: 127 above the first row, 129 left of the first
+    column (and for its corner below the first row), the above-right pixels from the macroblock
+    above-right, and in the last column the last pixel above repeated. -/
+theorem luma_borders_are_rfc (f : Vp8Border.Frame) : ∀ b ∈ Vp8Border.run f, Vp8Border.Good f b :=
+  Vp8Border.run_spec f
+
+-- non-vacuity: a 2x2 frame; the last macroblock's corner is the bottom-right pixel of the first
+def exBorders : Vp8Border.Frame := ⟨2, 2, fun mbx mby x y => 10 * mbx + 100 * mby + x + y⟩
+example : ((Vp8Border.run exBorders).map fun b => (b.corner, b.above 0, b.aboveRight 3, b.left 15)) =
+    [(127, 127, 127, 129), (127, 127, 127, 30), (129, 15, 28, 129), (30, 25, 40, 130)] := by decide
 
 end C02
